@@ -10,7 +10,7 @@ PROPS['C07'] = dict(
 )
 
 _VALUE_H = ['proofs::o14_1_num_roundtrip', 'proofs::o14_2_bool_nil', 'proofs::o14_3_num_eq_ieee', 'proofs::o14_4_num_eq_hash',
-            'proofs::o14_5_num_vs_other', 'proofs::o14_6_falsey', 'proofs::canary_num_domain']
+            'proofs::o14_5_num_vs_other', 'proofs::o14_6_falsey', 'proofs::o14_7_eq_reflexive', 'proofs::canary_num_domain']
 PROPS['C14'] = dict(
   level='proof',
   kani=[dict(crate='value', harnesses=_VALUE_H, features='', kind='complete', assumption_ids=['A-nan', 'A-kani']),
